@@ -408,7 +408,7 @@ func runMC(cfg *propCfg, leg legCfg, res *result) {
 		if len(line) > 0 {
 			if line[0] == '"' {
 				var s string
-				if e := json.Unmarshal(line, &s); e == nil && len(s) > 0 && s[0] == '{' {
+				if e := json.Unmarshal(line, &s); e == nil && len(s) > 0 && s[0] == '{' && !leg.NoExport {
 					exported++
 					ch <- []byte(s)
 				}
@@ -482,6 +482,7 @@ type traceInfo struct {
 	Queries int      `json:"queries"`
 	Events  int      `json:"events"`
 	Samples []string `json:"samples"`
+	Cfg     string   `json:"cfg"`
 }
 
 var summaryRe = regexp.MustCompile(`<<"TRACE-SUMMARY", (\d+), (\d+), (\d+)>>`)
@@ -524,7 +525,11 @@ func runTrace(cfg *propCfg, leg legCfg, res *result) {
 			}
 			var info traceInfo
 			json.Unmarshal(out, &info)
-			os.WriteFile(filepath.Join(dir, leg.Module+".cfg"), []byte("SPECIFICATION TraceSpec\nPOSTCONDITION Summary\nCHECK_DEADLOCK FALSE\n"), 0o644)
+			cfgText := "SPECIFICATION TraceSpec\nPOSTCONDITION Summary\nCHECK_DEADLOCK FALSE\n"
+			if info.Cfg != "" {
+				cfgText = info.Cfg
+			}
+			os.WriteFile(filepath.Join(dir, leg.Module+".cfg"), []byte(cfgText), 0o644)
 			cmd := exec.Command("timeout", fmt.Sprint(int(leg.Timeout.Seconds())), "tlc", "-workers", "1", "-metadir", filepath.Join(dir, "md"), leg.Module+".tla")
 			cmd.Dir = dir
 			cmd.Env = append(os.Environ(), "JAVA_TOOL_OPTIONS=-Xss256m")
